@@ -168,7 +168,7 @@ func profFromMask(r *Rand, cmask int, pmask uint32) *Prof {
 		opts = append(opts, canonicalizer.WithRepeatedPercentDecoding())
 	}
 	if cmask&16 != 0 {
-		opts = append(opts, canonicalizer.WithDefaultScheme([]string{"http", "https", "sc", "file"}[r.N(4)]))
+		opts = append(opts, canonicalizer.WithDefaultScheme([]string{"http", "https", "sc", "file", "http", "my_app", "1http", "web site", "a:b", "\xff"}[r.N(10)]))
 	}
 	switch (cmask >> 5) & 3 {
 	case 1:
